@@ -38,6 +38,17 @@ class References:
         "Item is the line itself\n"+
         "A group is not allowed to refer to itself")
 
+  def _check_items_not_self(self):
+    if gfapy.is_placeholder(self.name):
+      return
+    for item in self.items:
+      line = item.line if isinstance(item, gfapy.OrientedLine) else item
+      if line is self or (isinstance(line, str) and line == self.name):
+        raise gfapy.RuntimeError(
+          "Line: {}\n".format(self)+
+          "Item is the line itself\n"+
+          "A group is not allowed to refer to itself")
+
   def _line_for_ref_symbol(self, ref):
     line = self._gfa.line(ref)
     if line is None:
